@@ -316,6 +316,12 @@ class Builtins:
                 slot = self.attr_slot(o, name, st)
                 if slot is not None:
                     return [(slot, st)]
+                if isinstance(o, VVal) and node is not None and len(node.args) >= 1 and not name.startswith('__pane') \
+                        and (name in self.VAL_METHODS or name in self.TOTAL_ATTRS or name in self.ICONV_METHODS):
+                    # getattr(x, 'name') with a literal name IS x.name (methods of values, always-present dunder attributes)
+                    syn = ast.Attribute(value=node.args[0], attr=name, ctx=ast.Load())
+                    ast.copy_location(syn, node)
+                    return self.getattr_sv(o, name, st, syn)
                 return self.getattr_sv(o, name, st, None) if not isinstance(o, VVal) else self.getattr_named(o, name, st, node)
             ov = self.toVal(o, st)
             has = th.has_attr(name)(ov)
